@@ -119,6 +119,7 @@ func VerifH_C13_response_roundtrip() {
 	}
 	vr.Assert(resp.IssuerHash == want, "issuer hash algorithm")
 	vr.Assert(bytes.Equal(resp.Signature, []byte{0xaa, 0xbb}), "the signer's output is carried unchanged")
+	vr.Assert(bytes.Equal(resp.RawResponderName, responder.RawSubject), "the responder name is the responder certificate's subject")
 	switch status {
 	case Good:
 		vr.Cover("good")
